@@ -9,10 +9,16 @@
   (`m pattern platform` = `regexp.MatchString("(?i)"+pattern, platform)`, trusted).
 
   Fans: the property holds (C17_fan_*).
-  Sensors: the "fails cleanly" half is FALSE for the code that exists — a sensor entry whose
-  index is missing on a matching chip makes `initializeSensors` dereference a nil pointer.
-  `C17_sensor_fails_clean_statement` is the full-strength statement, `C17_sensor_refuted` proves
-  its negation, `C17_sensor_partial` is what does hold.
+  Sensors: the property holds (C17_sensor_*) since /repo commit 218c45c.
+  HISTORICAL NOTE: before that commit `initializeSensors` evaluated
+  `c.Sensors[config.HwMon.Index].Input` without a presence test, so a sensor entry whose index
+  was missing on a matching chip crashed start-up with a nil-pointer dereference
+  (witness: one chip `k10temp-pci-00c3` with a single temperature input, entry
+  `platform: k10temp, index: 2`; also: pattern `nct6775` matching a chip with the index and a
+  fan-only chip). This file then contained `C17_sensor_refuted`, a proof of the negation of
+  the "fails cleanly" statement. The fixed code skips a matching chip that lacks the index and
+  fails with an error when no matching chip has it; the old witnesses are kept below as
+  examples, now evaluating to `.err` resp. `.ok`.
 -/
 import Fan2go.Proofs.Hwmon
 namespace Fan2go
@@ -167,57 +173,44 @@ theorem C17_fan_fails_clean (m : String → String → Bool) (chips : List Chip)
 
 /-! ## sensors -/
 
-/-- The full-strength "fails cleanly" statement for sensor entries: an index that is missing on a
-    matching chip yields an error. FALSE for the code that exists (`C17_sensor_refuted`). -/
-def C17_sensor_fails_clean_statement : Prop :=
-  ∀ (m : String → String → Bool) (chips : List Chip) (sel : SensorSel),
-    (∃ c ∈ chips, m sel.platform c.platform = true ∧ lookupTemp c.temps sel.index = none) →
-      ∃ e, bindSensor m chips sel = .err e
+/-- **C17 (sensors, clean failure).** The sensor binding never panics; when no matching chip has
+    the index (unknown platform or missing index) it returns an error; and whatever it binds is
+    the input path of a matching chip that has the index (never a different device). -/
+theorem C17_sensor_fails_clean (m : String → String → Bool) (chips : List Chip) (sel : SensorSel) :
+    (∀ s, bindSensor m chips sel ≠ .panic s) ∧
+    ((∀ c ∈ chips, m sel.platform c.platform = true → lookupTemp c.temps sel.index = none) →
+        ∃ e, bindSensor m chips sel = .err e) ∧
+    (∀ p, bindSensor m chips sel = .ok p →
+        ∃ c ∈ chips, m sel.platform c.platform = true ∧ lookupTemp c.temps sel.index = some p) :=
+  ⟨bindSensor_ne_panic m chips sel, fun h => ⟨_, bindSensor_err_of_no_hit h⟩, fun _ h => bindSensor_sound h⟩
 
-/-- the witness: one chip with one temperature input, a sensor entry asking for `index: 2` -/
-def witnessChip : Chip :=
-  { platform := "k10temp-pci-00c3"
-    path := "/sys/class/hwmon/hwmon1"
-    fans := []
-    temps := [(1, "/sys/class/hwmon/hwmon1/temp1_input")] }
-
-theorem C17_sensor_witness_panics :
-    bindSensor ciContains [witnessChip] { platform := "k10temp", index := 2 } = .panic "nil" := by
-  decide
-
-/-- **C17 (sensors) is refuted**: `initializeSensors` evaluates `c.Sensors[index].Input` without
-    a presence test, so a missing index is a nil-pointer dereference, not an error. -/
-theorem C17_sensor_refuted : ¬ C17_sensor_fails_clean_statement := by
-  intro h
-  obtain ⟨e, he⟩ := h ciContains [witnessChip] { platform := "k10temp", index := 2 }
-    ⟨witnessChip, List.mem_cons_self, by decide, by decide⟩
-  rw [C17_sensor_witness_panics] at he
-  cases he
-
-/-- in fact EVERY missing index on a matching chip panics, wherever the chip is enumerated and
-    even if another matching chip has the index -/
-theorem C17_sensor_missing_index_panics (m : String → String → Bool) (chips : List Chip) (sel : SensorSel)
-    (h : ∃ c ∈ chips, m sel.platform c.platform = true ∧ lookupTemp c.temps sel.index = none) :
-    bindSensor m chips sel = .panic "nil" :=
-  bindSensor_panic_of_missing h
-
-/-- **C17 (sensors, what holds).**
+/-- **C17 (sensors, binding).**
     (1) exactly one chip matches and has the index: the sensor reads that chip's input path;
-    (2) every matching chip has the index and at least one matches: `.ok` with the input of a
-        matching chip (no panic);
+    (2) some matching chip has the index: `.ok` with the input of a matching chip that has it;
     (3) no chip matches: an error. -/
 theorem C17_sensor_partial (m : String → String → Bool) (chips : List Chip) (sel : SensorSel) :
     (∀ c p, c ∈ chips → m sel.platform c.platform = true →
         (∀ c' ∈ chips, m sel.platform c'.platform = true → c' = c) →
         lookupTemp c.temps sel.index = some p → bindSensor m chips sel = .ok p) ∧
-    ((∃ c ∈ chips, m sel.platform c.platform = true) →
-        (∀ c ∈ chips, m sel.platform c.platform = true → (lookupTemp c.temps sel.index).isSome = true) →
+    ((∃ c ∈ chips, m sel.platform c.platform = true ∧ (lookupTemp c.temps sel.index).isSome = true) →
         ∃ c ∈ chips, m sel.platform c.platform = true ∧
           ∃ p, lookupTemp c.temps sel.index = some p ∧ bindSensor m chips sel = .ok p) ∧
     ((∀ c ∈ chips, m sel.platform c.platform = false) → ∃ e, bindSensor m chips sel = .err e) :=
   ⟨fun _ _ hc hm hu hp => bindSensor_of_unique_chip hc hm hu hp,
-   fun hex hall => bindSensor_ok_of_all_present hex hall,
+   fun hex => bindSensor_ok_of_some_present hex,
    fun h => ⟨_, bindSensor_err_of_no_match h⟩⟩
+
+/-- **C17 (sensors, chips without the index are skipped).** If exactly one of the matching chips
+    has the index, the sensor reads that chip's input, wherever the other matching chips (e.g.
+    fan-only chips of the same family) are enumerated. -/
+theorem C17_sensor_skips_chip_without_index (m : String → String → Bool) (chips : List Chip)
+    (sel : SensorSel) (c : Chip) (p : String)
+    (hc : c ∈ chips) (hm : m sel.platform c.platform = true)
+    (hp : lookupTemp c.temps sel.index = some p)
+    (huniq : ∀ c' ∈ chips, m sel.platform c'.platform = true →
+      (lookupTemp c'.temps sel.index).isSome = true → c' = c) :
+    bindSensor m chips sel = .ok p :=
+  bindSensor_of_unique_hit hc hm hp huniq
 
 /-- the index of a sensor entry is the position among the chip's temperature features that have
     a `tempN_input` sub-feature, in libsensors feature order -/
@@ -243,13 +236,20 @@ theorem C17_sensor_by_index (m : String → String → Bool) (raws : List RawChi
   rw [hidx, lookupTemp_getTemps, hname]
   rfl
 
-/-- **C17 (sensors, enumeration order).** With at most one matching chip the result (the panic
-    included) does not depend on the enumeration order. -/
+/-- **C17 (sensors, enumeration order).** With at most one matching chip the result does not
+    depend on the enumeration order. -/
 theorem C17_sensor_perm_invariant (m : String → String → Bool) (chips chips' : List Chip) (sel : SensorSel)
     (hperm : chips.Perm chips')
     (hone : (chips.filter fun c => m sel.platform c.platform).length ≤ 1) :
     bindSensor m chips sel = bindSensor m chips' sel :=
   bindSensor_perm hperm hone
+
+/-- ... and it suffices that at most one matching chip HAS the index -/
+theorem C17_sensor_perm_invariant' (m : String → String → Bool) (chips chips' : List Chip) (sel : SensorSel)
+    (hperm : chips.Perm chips')
+    (hone : (chips.filter (sensorHit m sel)).length ≤ 1) :
+    bindSensor m chips sel = bindSensor m chips' sel :=
+  bindSensor_perm_hit hperm hone
 
 /-! ## non-vacuity: concrete trees through the whole model (`GetChips` included) -/
 
@@ -307,12 +307,44 @@ example : bindSensor ciContains (getChips exRaws) { platform := "-", index := 1 
     bindSensor ciContains (getChips exRaws.reverse) { platform := "-", index := 1 } = .ok "/sys/class/hwmon/hwmon2/temp1_input" := by
   decide
 
-/-- sensors: existing index, unknown platform, and the refuting panic (also when another
-    matching chip does have the index) -/
+/-- sensors: existing index, unknown platform, missing index (clean errors) -/
 example : bindSensor ciContains (getChips exRaws) { platform := "nct6775", index := 2 } = .ok "/sys/class/hwmon/hwmon2/temp3_input" := by decide
 example : bindSensor ciContains (getChips exRaws) { platform := "it8620", index := 1 } = .err "no-hwmon-device" := by decide
-example : bindSensor ciContains (getChips exRaws) { platform := "k10temp", index := 2 } = .panic "nil" := by decide
-example : bindSensor ciContains (getChips exRaws) { platform := "-", index := 2 } = .panic "nil" := by decide
+example : bindSensor ciContains (getChips exRaws) { platform := "k10temp", index := 2 } = .err "no-hwmon-device" := by decide
+example : bindSensor ciContains (getChips exRaws) { platform := "nct6775", index := 0 } = .err "no-hwmon-device" := by decide
+/-- pattern `"-"` matches both chips, only `nct6775` has a second temperature input -/
+example : bindSensor ciContains (getChips exRaws) { platform := "-", index := 2 } = .ok "/sys/class/hwmon/hwmon2/temp3_input" := by decide
+
+/-- the pre-fix witness (historical note in the header): one chip with one temperature input, a
+    sensor entry asking for `index: 2`. It used to evaluate to `.panic "nil"`. -/
+def witnessChip : Chip :=
+  { platform := "k10temp-pci-00c3"
+    path := "/sys/class/hwmon/hwmon1"
+    fans := []
+    temps := [(1, "/sys/class/hwmon/hwmon1/temp1_input")] }
+
+example : bindSensor ciContains [witnessChip] { platform := "k10temp", index := 2 } = .err "no-hwmon-device" := by
+  decide
+
+/-- the second pre-fix witness: the pattern matches a chip that has the index and a fan-only chip
+    of the same family -/
+def skipRaws : List RawChip :=
+  [ { pfx := "nct6775", busType := 1, busNr := 0, addr := 0x290, path := "/sys/class/hwmon/hwmon2",
+      features := [ ⟨.fan, "fan1", true, "fan1_input"⟩, ⟨.temp, "temp1", true, "temp1_input"⟩,
+                    ⟨.temp, "temp2", true, "temp2_input"⟩ ] },
+    { pfx := "nct6775", busType := 1, busNr := 0, addr := 0x2a0, path := "/sys/class/hwmon/hwmon3",
+      features := [ ⟨.fan, "fan1", true, "fan1_input"⟩ ] } ]
+
+example : bindSensor ciContains (getChips skipRaws) { platform := "nct6775", index := 1 } =
+    .ok "/sys/class/hwmon/hwmon2/temp1_input" := by decide
+example : bindSensor ciContains (getChips skipRaws.reverse) { platform := "nct6775", index := 1 } =
+    .ok "/sys/class/hwmon/hwmon2/temp1_input" := by decide
+
+/-- the hypotheses of `C17_sensor_skips_chip_without_index` are satisfiable on that tree -/
+example : bindSensor ciContains (getChips skipRaws) { platform := "nct6775", index := 1 } =
+    .ok "/sys/class/hwmon/hwmon2/temp1_input" :=
+  C17_sensor_skips_chip_without_index ciContains (getChips skipRaws) { platform := "nct6775", index := 1 }
+    (mkChip skipRaws[0]) _ (by decide) (by decide) (by decide) (by decide)
 
 #print axioms C17_fanOk_iff
 #print axioms C17_getChips_wf
@@ -322,12 +354,12 @@ example : bindSensor ciContains (getChips exRaws) { platform := "-", index := 2 
 #print axioms C17_fan_by_channel
 #print axioms C17_fan_perm_invariant
 #print axioms C17_fan_fails_clean
-#print axioms C17_sensor_witness_panics
-#print axioms C17_sensor_refuted
-#print axioms C17_sensor_missing_index_panics
+#print axioms C17_sensor_fails_clean
 #print axioms C17_sensor_partial
+#print axioms C17_sensor_skips_chip_without_index
 #print axioms C17_sensor_by_index
 #print axioms C17_sensor_perm_invariant
+#print axioms C17_sensor_perm_invariant'
 
 end Hwmon
 end Fan2go
